@@ -1,7 +1,7 @@
 (* C20 -- gallery operators equal the discretisations they document.  Property theorems. *)
 From Coq Require Import ZArith List Bool Ring.
 Import ListNotations.
-Require Import PV.Model.Stencil PV.Model.StencilRun PV.Proofs.StencilBounded PV.Proofs.GalleryProofs.
+Require Import PV.Model.Stencil PV.Model.StencilRun PV.Proofs.StencilBounded PV.Proofs.StencilProofs PV.Proofs.GalleryProofs.
 Require Import PV.Base.Ops PV.Proofs.RelaxProofs PV.Model.Diffusion PV.Proofs.DiffusionProofs.
 
 (* stencil_grid = "row of a grid point holds the stencil entries of the neighbours that exist":
@@ -12,6 +12,42 @@ Require Import PV.Base.Ops PV.Proofs.RelaxProofs PV.Model.Diffusion PV.Proofs.Di
 Theorem C20_stencil_grid_spec_bounded : forall g, In g grids -> ok g = true.
 Proof. exact stencil_bounded. Qed.
 Print Assumptions C20_stencil_grid_spec_bounded.
+
+(* ... and without any bound: on EVERY grid (any number of dimensions, every extent positive -- 1-wide and non-square
+   grids included) and for every stencil with as many dimensions as the grid, whatever its extents and entries, the
+   matrix the generator assembles (one DIA diagonal per nonzero stencil entry, boundary slices zeroed, diagonals outside
+   the matrix dropped, equal offsets summed) is the matrix whose (p, q) entry is the sum of the nonzero stencil entries
+   e with p + offset(e) = q, rows and columns in row-major order of the grid points.  Values of any type with an
+   addition for which the "zero" written into the boundary slices is a right identity. *)
+Theorem C20_stencil_grid_is_spec : forall (V : Type) (vzero : V) (vadd : V -> V -> V) (vnz : V -> bool),
+  (forall a, vadd a vzero = a) ->
+  forall shape g vals, Forall (fun d => 0 < d)%Z g -> length shape = length g ->
+  stencil_grid V vzero vadd vnz shape g vals = spec V vzero vadd vnz shape g vals.
+Proof. exact stencil_grid_is_spec. Qed.
+Print Assumptions C20_stencil_grid_is_spec.
+
+(* what "row-major order of the grid points" means: the rows / columns of the specification are the multi-indices of
+   the flat indices 0 .. N-1, each of them a grid point, and flat index <-> multi-index is a bijection *)
+Theorem C20_grid_points_row_major : forall g, Forall (fun d => 0 < d)%Z g ->
+  box g = map (unravel g) (idx (prodl g)) /\
+  (forall j, valid g (unravel g j)) /\
+  (forall j, (0 <= j < prodl g)%Z -> dotz (strides g) (unravel g j) = j) /\
+  (forall q, valid g q -> unravel g (dotz (strides g) q) = q /\ (0 <= dotz (strides g) q < prodl g)%Z).
+Proof.
+  intros g Hg. split; [exact (box_unravel g Hg)|]. split; [exact (unravel_valid g Hg)|].
+  split; [exact (ravel_unravel g Hg)|]. intros q Hq. split; [exact (unravel_ravel g q Hq)|exact (ravel_range g q Hq)].
+Qed.
+Print Assumptions C20_grid_points_row_major.
+
+(* the hypotheses are met, and the statement is not empty: the 5-point stencil on the 2 x 3 grid *)
+Example C20_stencil_grid_is_spec_example :
+  sgZ [3; 3]%Z [2; 3]%Z [0; -1; 0; -1; 4; -1; 0; -1; 0]%Z
+  = [[4; -1; 0; -1; 0; 0]; [-1; 4; -1; 0; -1; 0]; [0; -1; 4; 0; 0; -1];
+     [-1; 0; 0; 4; -1; 0]; [0; -1; 0; -1; 4; -1]; [0; 0; -1; 0; -1; 4]]%Z
+  /\ Forall (fun d => 0 < d)%Z [2; 3]%Z /\ length [3; 3]%Z = length [2; 3]%Z /\ (forall a, a + 0 = a)%Z.
+Proof.
+  split; [vm_compute; reflexivity|]. split; [repeat constructor|]. split; [reflexivity|]. intros a. apply Z.add_0_r.
+Qed.
 
 (* the 2-D diffusion stencils sum to zero for every anisotropy and rotation, over any
    commutative ring (FE: identically; FD: given cos^2 + sin^2 = 1) *)
